@@ -55,6 +55,20 @@ func genCase(t *rapid.T) Case {
 	if rapid.IntRange(0, 2).Draw(t, "args") == 0 {
 		c.Args = []string{"r0"}
 	}
+	if rapid.IntRange(0, 11).Draw(t, "onlyend") == 0 {
+		// no rules, and END blocks that do nothing: the program still reads all its input (and fails on an operand it
+		// cannot open), with coverage on as without
+		tree.Actions = nil
+		tree.End = nil
+		for i := rapid.IntRange(1, 2).Draw(t, "nend"); i > 0; i-- {
+			tree.End = append(tree.End, []*awk.Node{})
+		}
+		c.Split = nil
+		for i := 0; i < len(tree.Begin)+len(tree.End)+len(tree.Funcs); i++ {
+			c.Split = append(c.Split, rapid.IntRange(0, nfiles-1).Draw(t, "file2"))
+		}
+		c.Args = []string{rapid.SampledFrom([]string{"r0", "no-such-file", "r1"}).Draw(t, "endopd")}
+	}
 	if rapid.IntRange(0, 2).Draw(t, "cut?") == 0 {
 		c.Cut = rapid.IntRange(1, 1000).Draw(t, "cut")
 	}
